@@ -52,6 +52,9 @@ func (v Value) Equal(o Value) bool {
 func (v Value) String() string {
 	switch v.K {
 	case VNum:
+		if v.N == 0 {
+			return "num:0" // the sign of zero is not part of the comparison
+		}
 		return "num:" + strconv.FormatFloat(v.N, 'g', -1, 64)
 	case VBool:
 		return "bool:" + strconv.FormatBool(v.B)
